@@ -141,8 +141,8 @@ Proof.
     + rewrite IH; try lia.
       * rewrite P. cbn [List.length Nat.pow].
         generalize (10 ^ List.length acc)%nat (parse acc). intros X Y.
-        rewrite D at 2. generalize (n / 10)%nat (n mod 10)%nat. intros q r. ring.
-      * cbn [Nat.pow] in Hn. apply Nat.div_lt_upper_bound; lia.
+        remember (n / 10)%nat as q. remember (n mod 10)%nat as r. rewrite D. ring.
+      * change (10 ^ S (S f'))%nat with (10 * 10 ^ S f')%nat in Hn. apply Nat.div_lt_upper_bound; lia.
 Qed.
 
 Lemma pow10_gt n : (n < 10 ^ S n)%nat.
@@ -209,3 +209,39 @@ Proof.
   - intros H. apply comp_prefix_seg in H. apply J in H as [rest [E B]].
     exists rest. split; auto. rewrite E. now rewrite app_assoc.
 Qed.
+
+(* ------------------------------------------------------------------ the checked invariant, restated on strings *)
+
+(* hier_ok_at (the boolean evaluated on every real recording) says exactly: no case recorded up to the parent
+   extends the parent's stored string in the middle of a component (i.e. in the middle of its last count) *)
+Theorem hier_ok_at_iff_boundaries : forall pre cases i c,
+  nth_error cases i = Some c -> c <> [] ->
+  Forall (fun d => d <> [] /\ names_ok d) cases ->
+  (hier_ok_at pre cases i = true <->
+   forall j, (j <= i)%nat ->
+     starts_with (render pre c) (render pre (nth j cases [])) = true ->
+     boundary_prefix (render pre c) (render pre (nth j cases []))).
+Proof.
+  intros pre cases i c Hn Hne F. unfold hier_ok_at. unfold coord in *. rewrite Hn.
+  assert (i < List.length cases)%nat as Li by (apply nth_error_Some; congruence).
+  assert (names_ok c) as Oc.
+  { rewrite Forall_forall in F. apply (F c). eapply nth_error_In; eauto. }
+  assert (forall j, (j <= i)%nat -> nth j cases [] <> [] /\ names_ok (nth j cases [])) as Fj.
+  { intros j Hj. rewrite Forall_forall in F. apply F. apply nth_In. lia. }
+  rewrite forallb_forall. split.
+  - intros H j Hj SW. destruct (Fj j Hj) as [Nd Od].
+    apply (coord_boundary_prefix pre c _ Hne Nd Oc Od).
+    assert (In j (seq 0 (S i))) as Ij by (apply in_seq; lia).
+    specialize (H j Ij). cbv zeta in H. rewrite SW in H. exact H.
+  - intros H j Ij. apply in_seq in Ij. cbv zeta.
+    destruct (starts_with (render pre c) (render pre (nth j cases []))) eqn:SW; [| reflexivity].
+    cbn. destruct (Fj j) as [Nd Od]; [lia |].
+    apply (coord_boundary_prefix pre c _ Hne Nd Oc Od). apply H; [lia | exact SW].
+Qed.
+
+Example boundary_examples :
+  comp_prefix [("Driver", 1%nat)] [("Driver", 1%nat); ("root._solve_nonlinear", 1%nat)] = true /\
+  starts_with (render "rank0:" [("Driver", 1%nat)]) (render "rank0:" [("Driver", 10%nat)]) = true /\
+  comp_prefix [("Driver", 1%nat)] [("Driver", 10%nat)] = false /\
+  map parse (map show [0; 7; 10; 59; 1234]%nat) = [0; 7; 10; 59; 1234]%nat.
+Proof. vm_compute. repeat split. Qed.
